@@ -112,6 +112,7 @@ func propC09(w *World, r *Report) {
 	checkPerCode(w, r)
 	checkExplicitDelta(w, r)
 	checkSegmentSkip(w, r)
+	checkPlatformRange(w, r)
 	r.Floor("segmentskip", 1)
 	checkOverlapStrict(w, r, newBoundsRun(w))
 	RunSearchFields(w, r, map[string]bool{"(cmap.Format4).Encode": true})
